@@ -20,8 +20,8 @@ ASSUMPTIONS = [
     'the clause "index never beyond the first character no token can match" is tied through the failing _pos of the code model (gen) on the C01 grammar set, not proved',
 ]
 
-GRAMMAR_PE = 'start = [/[a-z\\n]*/, "!"]\n'        # fails at the first character outside [a-z\n]
-GRAMMAR_PP = 'start = /[a-z\\n]*/\n'               # partial parse at the same character
+GRAMMAR_PE = 'start = [/[a-z\\r\\n]*/, "!"]\n'        # fails at the first character outside [a-z\r\n]
+GRAMMAR_PP = 'start = /[a-z\\r\\n]*/\n'               # partial parse at the same character
 
 
 def expected_linecol(text, index):
@@ -129,7 +129,9 @@ def sweep(tier):
                 bad.append(_viol('ParseError', text, len(text), f'end of input reported as {exc.position}'))
     # error right on the last character and right after a newline
     for text, index in [('aaa\nBaa\naaa\n', 4), ('aaaBaB', 3), ('aaaaaB', 5), ('a\n\nB', 3), ('\nB', 1), ('B', 0), ('ab\nB\n', 3),
-                        ('ab\nB', 3), ('\n\n\nBx', 3)]:
+                        ('ab\nB', 3), ('\n\n\nBx', 3),
+                        # a carriage return is an ordinary character: only '\\n' ends a line
+                        ('ab\r\ncd\r\nBx', 8), ('a\rb\rB', 4), ('\r\nB', 2), ('ab\r\ncB', 5)]:
         if index is None:
             continue
         n += 1
